@@ -307,4 +307,120 @@ theorem Space.hkL_of_key (heap : Nat → String) : (l l' : List Space) →
         Space.hkL_of_key heap l l' h.2 ha.2 hb.2]
 end
 
+/-! ### composite sets over members whose `==` is total -/
+
+section composite
+variable {α κ : Type} (e : α → α → Option Bool) (r : α → α → Bool) (k : α → κ) (P : α → Prop)
+
+theorem anyO_total (p : α → Option Bool) (q : α → Bool) :
+    ∀ l : List α, (∀ x ∈ l, p x = some (q x)) → anyO p l = some (l.any q)
+  | [], _ => by simp [anyO]
+  | x :: l, h => by
+      have hx := h x (by simp)
+      have ih := anyO_total p q l (fun y hy => h y (by simp [hy]))
+      simp only [anyO, hx, List.any_cons]
+      cases q x <;> simp [ih]
+
+theorem allO_total (p : α → Option Bool) (q : α → Bool) :
+    ∀ l : List α, (∀ x ∈ l, p x = some (q x)) → allO p l = some (l.all q)
+  | [], _ => by simp [allO]
+  | x :: l, h => by
+      have hx := h x (by simp)
+      have ih := allO_total p q l (fun y hy => h y (by simp [hy]))
+      simp only [allO, hx, List.all_cons]
+      cases q x <;> simp [ih]
+
+/-- Bool version of `mutualInclO` -/
+def mutualInclB (a b : List α) : Bool :=
+  a.all (fun s => b.any (fun item => r item s)) && b.all (fun s => a.any (fun item => r item s))
+
+theorem mutualInclO_total (hr : ∀ x y, P x → P y → e x y = some (r x y)) (a b : List α)
+    (ha : ∀ x ∈ a, P x) (hb : ∀ x ∈ b, P x) :
+    mutualInclO e a b = some (mutualInclB r a b) := by
+  have h1 : allO (fun s => memO e s b) a = some (a.all (fun s => b.any (fun item => r item s))) := by
+    apply allO_total
+    intro s hs
+    exact anyO_total _ _ b (fun item hi => hr item s (hb item hi) (ha s hs))
+  have h2 : allO (fun s => memO e s a) b = some (b.all (fun s => a.any (fun item => r item s))) := by
+    apply allO_total
+    intro s hs
+    exact anyO_total _ _ a (fun item hi => hr item s (ha item hi) (hb s hs))
+  unfold mutualInclO mutualInclB
+  rw [h1, h2]
+  cases (a.all fun s => b.any fun item => r item s) <;> simp
+
+theorem mutualInclB_iff (hk : ∀ x y, P x → P y → (r x y = true ↔ k x = k y)) (a b : List α)
+    (ha : ∀ x ∈ a, P x) (hb : ∀ x ∈ b, P x) :
+    mutualInclB r a b = true ↔ ∀ z, z ∈ a.map k ↔ z ∈ b.map k := by
+  simp only [mutualInclB, Bool.and_eq_true, List.all_eq_true, List.any_eq_true, List.mem_map]
+  constructor
+  · rintro ⟨h1, h2⟩ z
+    constructor
+    · rintro ⟨s, hs, rfl⟩
+      obtain ⟨t, ht, hrt⟩ := h1 s hs
+      exact ⟨t, ht, (hk t s (hb t ht) (ha s hs)).1 hrt⟩
+    · rintro ⟨s, hs, rfl⟩
+      obtain ⟨t, ht, hrt⟩ := h2 s hs
+      exact ⟨t, ht, (hk t s (ha t ht) (hb s hs)).1 hrt⟩
+  · intro h
+    constructor
+    · intro s hs
+      obtain ⟨t, ht, hkt⟩ := (h (k s)).1 ⟨s, hs, rfl⟩
+      exact ⟨t, ht, (hk t s (hb t ht) (ha s hs)).2 hkt⟩
+    · intro s hs
+      obtain ⟨t, ht, hkt⟩ := (h (k s)).2 ⟨s, hs, rfl⟩
+      exact ⟨t, ht, (hk t s (ha t ht) (hb s hs)).2 hkt⟩
+
+theorem tupleEqO_iff (hr : ∀ x y, P x → P y → e x y = some (r x y))
+    (hk : ∀ x y, P x → P y → (r x y = true ↔ k x = k y)) :
+    ∀ (a b : List α), (∀ x ∈ a, P x) → (∀ x ∈ b, P x) →
+      ((tupleEqO e a b).isSome = true ∧ (tupleEqO e a b = some true ↔ a.map k = b.map k))
+  | [], [], _, _ => by simp [tupleEqO]
+  | [], _ :: _, _, _ => by simp [tupleEqO]
+  | _ :: _, [], _, _ => by simp [tupleEqO]
+  | x :: a, y :: b, ha, hb => by
+      have hx := ha x (by simp)
+      have hy := hb y (by simp)
+      have ih := tupleEqO_iff hr hk a b (fun z hz => ha z (by simp [hz]))
+        (fun z hz => hb z (by simp [hz]))
+      have hxy := hk x y hx hy
+      simp only [tupleEqO, hr x y hx hy, List.map_cons, List.cons.injEq]
+      cases hc : r x y
+      · simp [hc] at hxy ⊢
+        exact fun h => absurd h hxy
+      · simp [hc] at hxy ⊢
+        simp [ih.1, ih.2, hxy]
+
+end composite
+
+/-! ### non-composite sets whose `==` cannot raise -/
+
+inductive LKey
+  | emptySet | universalSet | strings (n : Nat) | complexNumbers | realNumbers | integers
+  | grid (k : List (List Fl)) | space (k : SKey) | other
+
+def Leaf.key : Leaf → LKey
+  | .emptySet => .emptySet | .universalSet => .universalSet | .strings n => .strings n
+  | .complexNumbers => .complexNumbers | .realNumbers => .realNumbers | .integers => .integers
+  | .grid g => .grid g.key | .space s => .space s.key
+  | _ => .other
+
+/-- members other than interval products (finding C20-F1) and finite sets -/
+def Leaf.simple : Leaf → Prop
+  | .interval _ => False
+  | .finite _ => False
+  | _ => True
+
+def Leaf.eqB (a b : Leaf) : Bool := (a.eqO b).getD false
+
+theorem Leaf.eqO_simple (a b : Leaf) (ha : a.simple) (hb : b.simple) :
+    a.eqO b = some (a.eqB b) := by
+  cases a <;> cases b <;> simp_all [Leaf.simple, Leaf.eqB, Leaf.eqO]
+
+theorem Leaf.eqB_iff (a b : Leaf) (ha : a.simple) (hb : b.simple) :
+    a.eqB b = true ↔ a.key = b.key := by
+  cases a <;> cases b <;>
+    simp_all [Leaf.simple, Leaf.eqB, Leaf.eqO, Leaf.key, Grid.eqI_iff, Space.eqI_iff] <;>
+    exact eq_comm
+
 end OdlModel.Spaces
